@@ -141,12 +141,19 @@ def r4_bridge_failures(ctx):
         ip = Interp(repo, max_while=3, max_iter=0, call_models={
             "cascade.executor.comms.Listener.recv_messages": lambda run, a, k, n, f, _m=msg: [_m] if not getattr(run, 'model_sent', False) and not setattr(run, 'model_sent', True) else []})
         from ..evalx import AnyKeyDict
+        from .common import host_entry as _he
         env = {"self.heartbeat_checker": AnyKeyDict(True, Obj("cascade.executor.comms.GraceWatcher", {}, name="gw"), "heartbeat_checker"),
-               "self.sender.hosts": {"H1": ("s", "a"), "data.H1": ("s", "a")}}
+               "self.sender.hosts": {"H1": _he(repo, "s", "a"), "data.H1": _he(repo, "s", "a"), "H10": _he(repo, "s", "b"), "data.H10": _he(repo, "s", "b")}}
         paths = ip.explore(fi, env=env)
         ctx.evals(len(paths))
         for p in paths:
             sh = [e for e in p.effects if is_call(e, qual=f"{BR}.shutdown")]
+            left = sorted(p.heap.get("self.sender.hosts", {}).keys()) if isinstance(p.heap.get("self.sender.hosts"), dict) else None
+            if nm in ("ExecutorExit", "ExecutorFailure") and left is not None and left != ["H10", "data.H10"]:
+                ctx.violation("C05.R4", fi.qual, loc(fi), f"{nm} forgets exactly that host",
+                              f"hosts H1 and H10 registered, {nm} of H1 received: channels still known afterwards {left}; expected ['H10', 'data.H10'] — a host that is "
+                              f"forgotten by mistake never gets the shutdown command and stays behind with its workers and segments; a host that is not forgotten is waited for")
+                continue
             spin = [e for e in p.effects if e.kind == "loop_exit" and e.data.get("bound")]
             if spin or p.exit[0] == "trunc":
                 ctx.violation("C05.R4", fi.qual, loc(fi), f"{nm} ends the wait",
